@@ -15,6 +15,8 @@ pub enum Cond {
     Lit(bool),
     Mac(String),
     Not(Box<Cond>),
+    /// `! c`: a blank between the operator and its operand
+    NotSp(Box<Cond>),
     Eq(Box<Cond>, Box<Cond>),
 }
 
@@ -33,6 +35,9 @@ pub enum Item {
     Error(u32),
     Include(u32),
     Group(Group),
+    /// a block comment over several lines whose text looks like directives (variant 0-3); it opens after
+    /// a declaration on an ordinary line, so that the scanner must see that line even in a skipped region
+    Comment(u8),
 }
 
 #[derive(Debug, Clone, Serialize, Deserialize, PartialEq)]
@@ -178,7 +183,8 @@ impl<'a, 'b> Gen<'a, 'b> {
                     Cond::Mac(self.g.pick(&MACROS).to_string())
                 }
             }
-            3 | 4 => Cond::Not(Box::new(self.cond(evaluated, depth - 1))),
+            3 => Cond::Not(Box::new(self.cond(evaluated, depth - 1))),
+            4 => Cond::NotSp(Box::new(self.cond(evaluated, depth - 1))),
             _ => Cond::Eq(Box::new(self.cond(evaluated, depth - 1)), Box::new(self.cond(evaluated, depth - 1))),
         }
     }
@@ -187,7 +193,7 @@ impl<'a, 'b> Gen<'a, 'b> {
         match c {
             Cond::Lit(b) => *b,
             Cond::Mac(m) => self.table.get(m).cloned().flatten().unwrap_or(false),
-            Cond::Not(a) => !self.eval(a),
+            Cond::Not(a) | Cond::NotSp(a) => !self.eval(a),
             Cond::Eq(a, b) => self.eval(a) == self.eval(b),
         }
     }
@@ -196,8 +202,9 @@ impl<'a, 'b> Gen<'a, 'b> {
     fn items(&mut self, live: bool, depth: u32, n: usize) -> Vec<Item> {
         let mut out = vec![];
         for _ in 0..n {
-            let w = [30u32, 14, 6, 3, 5, if depth > 0 { 22 } else { 0 }];
+            let w = [30u32, 14, 6, 3, 5, if depth > 0 { 22 } else { 0 }, 4];
             match self.g.weighted(&w) {
+                6 => out.push(Item::Comment(self.g.below(4) as u8)),
                 0 => {
                     self.next_marker += 1;
                     out.push(Item::Marker(self.next_marker));
@@ -330,6 +337,7 @@ fn cond_text(c: &Cond) -> String {
         Cond::Lit(b) => (*b as u8).to_string(),
         Cond::Mac(m) => m.clone(),
         Cond::Not(a) => format!("!{}", cond_text(a)),
+        Cond::NotSp(a) => format!("! {}", cond_text(a)),
         Cond::Eq(a, b) => format!("{} == {}", cond_text(a), cond_text(b)),
     }
 }
@@ -342,7 +350,7 @@ fn cond_value(c: &Cond, table: &BTreeMap<String, Option<bool>>) -> Option<bool> 
         match c {
             Cond::Lit(b) => out.push(Tok::Val(*b)),
             Cond::Mac(m) => out.push(Tok::Val((*table.get(m)?)?)),
-            Cond::Not(a) => {
+            Cond::Not(a) | Cond::NotSp(a) => {
                 out.push(Tok::Not);
                 toks(a, table, out)?;
             }
@@ -455,6 +463,20 @@ impl Render {
                     } else if !live {
                         self.directive_in_dead = true;
                     }
+                }
+                Item::Comment(v) => {
+                    // nothing inside a comment is a directive, in a selected region or not
+                    self.emit("char cmt_dummy_decl_placeholder; /* a comment that goes on".replace("cmt_dummy_decl_placeholder", &format!("cmt{}", self.line)).as_str());
+                    match v {
+                        0 => self.emit("#else"),
+                        1 => self.emit("#endif"),
+                        2 => {
+                            self.emit("#elif 1");
+                            self.emit("#define CMT_MACRO 1");
+                        }
+                        _ => self.emit("#if 0"),
+                    }
+                    self.emit("   and ends here */");
                 }
                 Item::Include(k) => {
                     self.emit(&format!("#include \"h{}.h\"", k));
